@@ -194,5 +194,5 @@ def run_shard(spec, seed):
                 return f
         return None
 
-    hypothesis_search(values.plain_values(), body, seed, spec["n"], res, batch=500)
+    hypothesis_search(values.plain_values(extra_scalars=True), body, seed, spec["n"], res, batch=500)
     return res
